@@ -343,6 +343,20 @@ fn gen_c02(tier: &str, rng: &mut Rng, emit: &mut dyn FnMut(Op)) {
             _ => base.replace('o', "0"),
         }
     };
+    // quotes, brackets and blanks around a pattern are part of its text (of BASE and of the bound)
+    for (l, r) in [("'", "'"), ("\"", "\""), ("(", ")"), (" ", " "), ("`", "`")] {
+        for inner in ["pkg>=1.0", "pkg<2", "pkg>=1<3", "pkg>1.0nb2"] {
+            let p = format!("{}{}{}", l, inner, r);
+            emit(Op::s("dewey.new", &[&p]));
+            emit(Op::s("pattern.new", &[&p]));
+            for n in ["pkg-2.0", "pkg-1.5", "pkg-0.5"] {
+                for name in [n.to_string(), format!("{}{}", l, n), format!("{}{}{}", l, n, r), format!("{}{}", n, r)] {
+                    emit(Op::s("dewey.match", &[&p, &name]));
+                    emit(Op::s("pattern.match", &[&p, &name]));
+                }
+            }
+        }
+    }
     // a package name spelled exactly like the pattern is just another name
     for p in &pats {
         emit(Op::s("dewey.match", &[p, p]));
@@ -365,8 +379,9 @@ fn gen_c02(tier: &str, rng: &mut Rng, emit: &mut dyn FnMut(Op)) {
     }
 }
 
-pub const PIECES18: [&str; 14] = [
+pub const PIECES18: [&str; 17] = [
     "", "a", "-", "nb", "nb1", "nb12", "1.0", "anb", "nbnb3", "é", "123456789012345678", "NB4", "NB", "nB2",
+    ".tgz", ",", "\0",
 ];
 
 fn gen_c18(tier: &str, rng: &mut Rng, emit: &mut dyn FnMut(Op)) {
@@ -427,6 +442,31 @@ fn gen_c18(tier: &str, rng: &mut Rng, emit: &mut dyn FnMut(Op)) {
                     }
                 }
             }
+        }
+    }
+    // the LAST '-' among its look-alikes: ',' '.' '+' are one bit away, U+00AD ends in the byte AD;
+    // names of every length up to three machine words
+    {
+        let alpha: [&str; 8] = ["-", ",", ".", "+", "a", "1", "\u{ad}", "m"];
+        for _ in 0..(if thorough { 60000 } else { 6000 }) {
+            let n = rng.range(1, 26);
+            let mut s = String::new();
+            for _ in 0..n {
+                s.push_str(*rng.pick::<&str>(&alpha));
+            }
+            emit(Op::s("pkgname.new", &[&s]));
+            emit(Op::s("summary.pkgsplit", &[&s]));
+        }
+        for name in ["foo-bar-,1.0", "foo-bar-,", "abcdefg-,1", "-,------", "a-,b-,c-,d-,e", "xxxxxxx-,", "xxxxxxxx-,1"] {
+            emit(Op::s("pkgname.new", &[name]));
+            emit(Op::s("summary.pkgsplit", &[name]));
+        }
+    }
+    // a tie in version AND revision (no "nb" = "nb0" = "nb") goes to the byte-wise smaller name
+    for v in ["1.0", "2", "1.0rc1"] {
+        for (x, y) in [("", "nb0"), ("", "nb"), ("nb0", "nb000"), ("", "nb00"), ("nb1", "nb01"), ("nb", "nb0")] {
+            emit(Op::s("pattern.best", &["pkg-[0-9]*", &format!("pkg-{}{}", v, x), &format!("pkg-{}{}", v, y)]));
+            emit(Op::s("pattern.best", &["pkg-[0-9]*", &format!("pkg-{}{}", v, y), &format!("pkg-{}{}", v, x)]));
         }
     }
     // best_match takes the version (and its revision) from the text after the LAST '-': bases that
@@ -541,6 +581,14 @@ fn gen_c19(tier: &str, rng: &mut Rng, emit: &mut dyn FnMut(Op)) {
     }
     emit(Op::s("depend.new", &[":"]));
     emit(Op::s("depend.new", &[""]));
+    // the pattern's base may be the very name of the package directory (the usual case in the
+    // wild): the exposed parts are still exactly what parsing each half gives
+    for (pat, dir) in [("pkg>=1.0", "pkg"), ("pkg-[0-9]*", "pkg"), ("pkg", "pkg"), ("{pkg,pkg2}>=1", "pkg"), ("pkg>=1<2", "pkg"),
+        ("pkg<3", "pkg"), ("cat>=1", "pkg"), ("p5-Foo>=0", "p5-Foo")] {
+        for q in [format!("../../cat/{}", dir), format!("cat/{}", dir), format!("../../cat/{}/", dir)] {
+            emit(Op::s("depend.new", &[&format!("{}:{}", pat, q)]));
+        }
+    }
 }
 
 // ---------------------------------------------------------------- C04
@@ -655,6 +703,15 @@ fn gen_c04(tier: &str, rng: &mut Rng, emit: &mut dyn FnMut(Op)) {
         // an expansion whose text after the group is part of a version bound
         ("pkg>={1,2}0", vec!["pkg-15", "pkg-9", "pkg-25", "pkg-20"]),
         ("pkg-{1,2}.0", vec!["pkg-1.0", "pkg-2.0", "pkg-3.0"]),
+        // the SAME group text twice: each occurrence is expanded on its own (all four products)
+        ("lib{a,b}{a,b}-[0-9]*", vec!["libab-1.0", "libba-1.0", "libaa-1.0", "libbb-1.0", "liba-1.0"]),
+        ("{p{x,y},q}-{r{x,y},s}>=1", vec!["px-ry-2", "py-rx-2", "px-rx-2", "q-s-2", "q-ry-2"]),
+        ("{x,y}-{x,y}", vec!["x-y", "y-x", "x-x", "y-y"]),
+        ("{,a}{,a}b", vec!["b", "ab", "aab", "aaab"]),
+        ("{a,b}c{a,b}c{a,b}", vec!["acbca", "bcacb", "acacb", "acaca"]),
+        // an expansion that is a version-less name of a comparison pattern matches nothing
+        ("{foo,bar}>=0", vec!["foo", "bar", "foo-0", "foo-"]),
+        ("lib{x{,11},y}<2", vec!["libx", "libx11", "liby", "libx-1", "libx11-1.9"]),
     ];
     for (p, names) in &fixed {
         emit(Op::s("pattern.new", &[p]));
@@ -990,6 +1047,9 @@ fn gen_c06(tier: &str, rng: &mut Rng, emit: &mut dyn FnMut(Op)) {
         "99999999999999999999", "9223372036854775807", "1.0nb00000000000000000003",
         // file-name like endings are part of the version text
         "1.0.tgz", "1.0.tar.gz", "1.0 ", "1.0\n",
+        // ignored characters (NUL included) are skipped, what follows them still counts; "nb0" is a
+        // revision of 0, as is a bare "nb"
+        "1\0.5", "1.0\0nb3", "2\0rc1", "1.0\0", "1.0nb0", "1.0nb000", "1.2",
         // a version may START with a modifier (below zero), next to the largest numbers
         "alpha1", "rc1", "beta", "pre2", "9223372036854775806", "9223372036854775805", "9223372036854775804",
         // every '.' is a component of its own: empty fields between, before and after dots
